@@ -15,9 +15,14 @@ import random
 LETTERS = "abcdefghijklmnopqrstuvwxyz"
 
 
+# a few terminals have non-ASCII lexemes so that byte offsets, columns (bytes) and
+# character boundaries differ from character counts
+NONASCII = {"e": "\u00e9", "k": "\u20ac", "z": "\u00df"}
+
+
 def term(i, kind="str", prio=None, assoc=None):
-    ch = LETTERS[i]
-    name = "T" + ch
+    name = "T" + LETTERS[i]
+    ch = NONASCII.get(LETTERS[i], LETTERS[i])
     if kind == "str":
         text = ch
     else:
@@ -430,7 +435,7 @@ def render_input(g, tokens, rng=None, seps=None, foreign_at=None, kinds=None,
     prev = None
     for i, name in enumerate(tokens):
         if name == "?":  # foreign character no terminal matches
-            word = rng.choice(["#", "é", "€", "?"]) if rng else "#"
+            word = rng.choice(["#", "\u00f1", "\u20a4", "?", "\x00", "\x7f", "\u200b", "\U0001f600"]) if rng else "#"
             kind = -1
         else:
             word = lex[name]
